@@ -91,6 +91,7 @@ def run_C03(tier, rnd, st, res):
             cases.append(Case(content_for(rnd, 1, rnd.randint(1, 4)), dict(kw), 'short-in-big'))
             mode = rnd.choice(modes_of(v))
             cases.append(Case(content_for(rnd, mode, max_chars(v, e, mode)), dict(kw, mode=MODE_NAME[mode]), 'full'))
+    cases += list(gen_minimal(rnd))
     cases = sweep(cases, st, res, ['c03'], want_c06=False)
     res.exhaustive = True
     finish(res, cases, 'all 168 block layouts x all masks (triples) + per layout a nearly empty symbol (pad-only blocks) and a full one; '
@@ -105,6 +106,7 @@ def run_C01(tier, rnd, st, res):
     cases += list(gen_requested_version_gap(rnd, 30 if tier == 'quick' else 300))
     cases += list(gen_merge_histories(rnd, 25 if tier == 'quick' else 250))
     cases += list(gen_encoding_histories(rnd))
+    cases += list(gen_minimal(rnd))
     cases += list(gen_eci_boundaries(rnd, range(1, 5) if tier == 'quick' else range(1, 41)))
     if tier != 'quick':
         cases += [Case(bytes([a, b]), {}, 'two-bytes') for a in range(0, 256) for b in range(0, 256, 1)]
@@ -171,6 +173,7 @@ def run_C13(tier, rnd, st, res):
                 for n in (sorted({1, 2, max(1, nm - 1), nm}) if v in dense else [nm]):
                     if n >= 1 and nm >= 1:
                         cases.append(Case(content_for(rnd, mode, n), dict(kw, mode=MODE_NAME[mode]), 'other-modes'))
+    cases += list(gen_minimal(rnd))
     cases += list(gen_random(rnd, 300 if tier == 'quick' else 3000))
     cases = sweep(cases, st, res, ['c13'], want_c06=False, known_map=known_c13)
     sequence_block(tier, rnd, res, 'c13', known_c13)
@@ -256,6 +259,11 @@ def run_C05(tier, rnd, st, res):
                     if rnd.random() < 0.3:
                         kw['version'] = v
                     cases.append(Case(''.join(rnd.choice('abcdefghijklmnopqrstuvwxyz') for _ in range(n)), kw, 'eci-exact-fit'))
+                    if n >= 3 and enc != 'iso-8859-1':
+                        # the same length as adjacent parts which are merged into ONE segment with ONE ECI header (boosting counts it once)
+                        text = ''.join(rnd.choice('abcdefghijklmnopqrstuvwxyz') for _ in range(n))
+                        cut = rnd.randint(1, n - 1)
+                        cases.append(Case([text[:cut], text[cut:]], dict(kw), 'eci-merged-exact-fit'))
     cases += list(gen_random(rnd, 400 if tier == 'quick' else 4000))
     cases = sweep(cases, st, res, ['c05'], want_c06=False)
     # the single-symbol path of make_sequence must honour boost_error / the requested level as well
